@@ -109,8 +109,8 @@ func checkC08(c *run.Ctx) {
 			for k, v := range d.Feat {
 				c.Count(k, v)
 			}
-			if c.WantSample() && len(rs) > 1 && len(rs[1].Text) < 1500 {
-				c.Sample(map[string]any{"document": rs[1].Text})
+			if c.WantSample() {
+				c.Sample(map[string]any{"document": clip(rs[len(rs)-1].Text, 1500), "style": rs[len(rs)-1].Style})
 			}
 		})
 	})
@@ -187,8 +187,42 @@ func checkC08(c *run.Ctx) {
 			tree := build(3)
 			id := run.CaseID("prog", i)
 			c.Eval(1)
-			c.Feature("prog", len(tree.Map) > 8, tree.Depth())
 			m := docToAny(tree).(*ordered.MapSA)
+			// "built programmatically" includes deletions and in-place renames: apply a short
+			// history (always touching the first pair in one of the variants) to both the map
+			// and the tree, so that the encoders see tombstoned storage as well
+			nops := 0
+			if i%2 == 0 && len(tree.Map) >= 3 {
+				for k, n := 0, 1+r.IntN(3); k < n && len(tree.Map) >= 2; k++ {
+					j := r.IntN(len(tree.Map))
+					if k == 0 && r.IntN(2) == 0 {
+						j = 0
+					}
+					switch r.IntN(3) {
+					case 0: // delete
+						m.Delete(tree.Map[j].Key)
+						tree.Map = append(tree.Map[:j:j], tree.Map[j+1:]...)
+					case 1: // rename a later pair onto this key (this pair disappears, the later one takes the name in its own place)
+						l := j + 1 + r.IntN(len(tree.Map)-j-1+1)
+						if l >= len(tree.Map) {
+							l = len(tree.Map) - 1
+						}
+						if l == j {
+							continue
+						}
+						m.Replace(tree.Map[l].Key, tree.Map[j].Key, docToAny(tree.Map[l].Val))
+						tree.Map[l].Key = tree.Map[j].Key
+						tree.Map = append(tree.Map[:j:j], tree.Map[j+1:]...)
+					default: // rename to a fresh key in place
+						nk := "renamed" + g.Next()
+						m.Replace(tree.Map[j].Key, nk, docToAny(tree.Map[j].Val))
+						tree.Map[j].Key = nk
+					}
+					nops++
+				}
+				c.Count("programmatic_maps_with_delete_or_rename_history", 1)
+			}
+			c.Feature("prog", len(tree.Map) > 8, tree.Depth(), nops > 0)
 			// JSON
 			jb, err := m.MarshalJSON()
 			if err != nil {
